@@ -250,7 +250,13 @@ def rule_cache_reset(ctx):
                      n.func.attr in ('truncate',) and norm(n.func.value) == 'self._cache']
             for r in rebinds:
                 found += 1
-                ok = norm(r.value) == 'io.BytesIO(self._cache.read())'
+                val = r.value
+                if isinstance(val, ast.Call) and len(val.args) == 1 and isinstance(val.args[0], ast.Name):
+                    # io.BytesIO(tail) with `tail = self._cache.read()` bound once before
+                    ds = [a for a in walk_own(m.node) if isinstance(a, ast.Assign) and any(isinstance(t, ast.Name) and t.id == val.args[0].id for t in a.targets)]
+                    if len(ds) == 1 and ds[0].lineno < r.lineno:
+                        val = ast.parse('%s(%s)' % (norm(val.func), norm(ds[0].value)), mode='eval').body
+                ok = norm(val) == 'io.BytesIO(self._cache.read())'
                 ctx.ob('A12.tail', m, 'cache reset keeps the unread tail', ok,
                        'the new cache `%s` is not built from the unread rest of the old one: octets the decoder read ahead and '
                        'pushed back (end-of-stream probe, end-of-octets probe) are lost' % norm(r.value) if not ok else norm(r.value), node=r)
